@@ -413,3 +413,71 @@ func generate(r *hx.Rand, k knobs) []spec {
 	}
 	return g.out
 }
+
+// genChain makes an archive around one long chain of symbolic links
+// c0 -> c1 -> ... -> c(k-1) -> end, where end is a regular file, a directory
+// with a file in it, a missing name, or a link of the chain again (a cycle).
+// Then, sometimes, a regular member named like the first link (written
+// through the whole chain) and a member placed below it (the chain in
+// directory position). Hop budgets that do not grow with the archive show
+// here.
+func genChain(r *hx.Rand) []spec {
+	k := 1 + r.Intn(12)
+	if r.Intn(3) == 0 {
+		k = 12 + r.Intn(60)
+	}
+	dirs := []string{"", "l/", "a/b/"}
+	name := func(i int) string { return dirs[i%len(dirs)] + "c" + itoa(i) }
+	var out []spec
+	emit := func(tf byte, n, l string, d []byte) {
+		out = append(out, spec{Typeflag: tf, Name: n, Link: l, Data: d, Mode: 0o644})
+	}
+	end := r.Intn(4)
+	var last string
+	switch end {
+	case 0:
+		last = "end/file"
+		emit(tar.TypeReg, last, "", []byte("at the end of the chain"))
+	case 1:
+		last = "end/dir"
+		emit(tar.TypeDir, last+"/", "", nil)
+		emit(tar.TypeReg, last+"/x", "", []byte("in the directory at the end"))
+	case 2:
+		last = "end/nope"
+	case 3:
+		last = name(r.Intn(k))
+	}
+	order := make([]int, k)
+	for i := range order {
+		order[i] = i
+	}
+	if r.Intn(2) == 0 {
+		for i := k - 1; i > 0; i-- {
+			j := r.Intn(i + 1)
+			order[i], order[j] = order[j], order[i]
+		}
+	}
+	for _, i := range order {
+		tgt := last
+		if i+1 < k {
+			tgt = name(i + 1)
+		}
+		if r.Intn(2) == 0 {
+			emit(tar.TypeSymlink, name(i), "/"+tgt, nil)
+		} else {
+			emit(tar.TypeSymlink, name(i), relTo(name(i), tgt), nil)
+		}
+	}
+	if r.Intn(2) == 0 {
+		// Written through the chain.
+		emit(tar.TypeReg, name(0), "", []byte("written through"))
+	}
+	if r.Intn(2) == 0 {
+		// The chain in directory position.
+		emit(tar.TypeReg, name(0)+"/below", "", []byte("placed through"))
+	}
+	if r.Intn(3) == 0 {
+		emit(tar.TypeLink, "hl", name(r.Intn(k)), nil)
+	}
+	return out
+}
